@@ -450,6 +450,65 @@ MUTANTS = [
          (EB, """            self._expression = "Zwei exklusive Formatdefinitionen dürfen nicht gleichzeitig erfüllt sein\"""", """            self._expression = "Beide Formatdefinitionen sind erfüllt, es darf aber nur eine erfüllt sein\"""")],
         ["C20", "C08", "C07", "C09"],
     ),
+    (
+        "ok_evaluate_conditions_sequential",
+        [(RCEV, """        results = await asyncio.gather(*tasks)
+
+        result = dict(zip(condition_keys, results))
+        return result
+""", """        result = {}
+        for condition_key, task in zip(condition_keys, tasks):
+            result[condition_key] = await task
+        return result
+""")],
+        ["C12", "C04", "C09", "C13"],
+    ),
+    (
+        "ok_no_parse_cache_for_ahb_expressions",
+        [(AEP, """@tree_copy
+@lru_cache(maxsize=1024)
+def parse_ahb_expression_to_single_requirement_indicator_expressions""", """@tree_copy
+@lru_cache(maxsize=2)
+def parse_ahb_expression_to_single_requirement_indicator_expressions""")],
+        ["C11", "C09", "C02"],
+    ),
+    (
+        "ok_fc_expression_always_bracketed",
+        [(EB, """            self._expression = self._one_key_surrounded_by_brackets_pattern.sub(r"\\g<body>", self._expression)""", """            self._expression = str(self._expression)""")],
+        ["C07", "C09", "C04", "C19"],
+    ),
+    (
+        "ok_group_result_built_after_children",
+        [(VAL, """    validation_results_in_context = [
+        ValidationResultInContext(discriminator=segment_group.discriminator, validation_result=segment_group_validation)
+    ]
+
+    if segment_group_validation.requirement_validation is not RequirementValidationValue.IS_FORBIDDEN:""", """    own_result = ValidationResultInContext(discriminator=segment_group.discriminator, validation_result=segment_group_validation)
+    validation_results_in_context = [own_result]
+
+    if segment_group_validation.requirement_validation != RequirementValidationValue.IS_FORBIDDEN:""")],
+        ["C13", "C14", "C16"],
+    ),
+    (
+        "ok_unknown_checked_first_in_and",
+        [(CN, """        if ConditionFulfilledValue.UNFULFILLED in (self, other):
+            return ConditionFulfilledValue.UNFULFILLED
+        if ConditionFulfilledValue.UNKNOWN in (self, other):
+            return ConditionFulfilledValue.UNKNOWN
+        if self == ConditionFulfilledValue.FULFILLED and other""", """        if ConditionFulfilledValue.UNFULFILLED in (self, other):
+            return ConditionFulfilledValue.UNFULFILLED
+        if self == ConditionFulfilledValue.UNKNOWN or other == ConditionFulfilledValue.UNKNOWN:
+            return ConditionFulfilledValue.UNKNOWN
+        if self == ConditionFulfilledValue.FULFILLED and other""")],
+        ["C03", "C04", "C05"],
+    ),
+    (
+        "ok_gastag_via_utc_arithmetic",
+        [(TAG, """    german_local_time = _get_german_local_time(date_time)
+    return german_local_time.hour == 6 and german_local_time.minute == 0 and german_local_time.second == 0""", """    german_local = date_time.astimezone(berlin)
+    return (german_local.hour, german_local.minute, german_local.second) == (6, 0, 0)""")],
+        ["C20"],
+    ),
 ]
 
 
